@@ -98,6 +98,8 @@ class FieldArrayModel(FieldCompositeModel):
         FieldCompositeModel.post_randomize(self, visited)
         self.sum_expr = None
         self.sum_expr_btor = None
+        self.product_expr = None
+        self.product_expr_btor = None
         
     def add_field(self) -> FieldScalarModel:
         fid = len(self.field_l)
